@@ -14,7 +14,7 @@ Line protocol handler for the `grp` domain (C10, C11). One self-contained case p
               chain <p|g> <shortcuts> <op> <args…>
               chain2 <roles2> <count2> <members2> <c0|c1|c2|c3> <p|g|G> <shortcuts> <op> <args…>
                 (second group entity; c1: entity 0 declares entity 1 in containing_entities, c2: the
-                 converse, c3: both; shortcuts h k fp x t<k> f<k> T<k> F<k>; final ops also
+                 converse, c3: both; shortcuts h k fp mb (`members`) x t<k> f<k> T<k> F<k>; final ops also
                  `project <vals>` — not projectable — and `call <vals>` — a variable holding <vals>)
 
 Answers: comma-joined values (`T`/`F`, integers, `inf`, `-inf`), `[]` for an empty array, `ERR`
@@ -86,7 +86,7 @@ def showList {α} (f : α → String) (l : List α) : String :=
 
 def showB (b : Bool) : String := if b then "T" else "F"
 def showI (i : Int) : String := toString i
-def showE : EInt → String
+def showEI : EInt → String
   | .negInf => "-inf" | .posInf => "inf" | .fin v => toString v
 
 def out {α} (f : α → String) : Except String (List α) → String
@@ -140,7 +140,7 @@ def GOp.projectable : GOp → Bool
 
 def ofBools (r : List Bool) : String × List EInt := (showList showB r, r.map (.fin ∘ b2i))
 def ofInts (r : List Int) : String × List EInt := (showList showI r, r.map .fin)
-def ofE (r : List EInt) : String × List EInt := (showList showE r, r)
+def ofE (r : List EInt) : String × List EInt := (showList showEI r, r)
 
 /-- typed answer of a method on the population of entity `e` of the world (`rank` and `partner`
 refer to entity 0): left = text as the method itself prints it, right = the same values as extended
@@ -216,6 +216,7 @@ def parseShortcuts (ts : List RoleTable) (s : String) : Option (List Shortcut) :
     if x = "h" then some (.entity 0)
     else if x = "k" then some (.entity 1)
     else if x = "fp" then some .firstPerson
+    else if x = "mb" then some .members
     else if x = "x" then some .other
     else match parseRoleArg2 ts x with
       | some (some (_, r)) => some (.role r)
@@ -227,7 +228,7 @@ def parseStart (s : String) : Option Level :=
 def runChain (w : World) (ts : List RoleTable) (role : String) (start sc op2 : String) (rest2 : List String) : String :=
   match parseStart start, parseShortcuts ts sc, parseOp op2 rest2, parseRoleArg2 ts role with
   | some lvl, some ss, some gop, some ro =>
-    out showE (chainCall w (.fin 0) lvl ss gop.projectable fun l =>
+    out showEI (chainCall w (.fin 0) lvl ss gop.projectable fun l =>
       let okLevel := match gop.onPerson with
         | none => true
         | some b => b == (l == Level.person)
